@@ -43,9 +43,7 @@ func Run(c *core.Ctx) {
 	if f := c.Func(pkgRun, "dbRestorer", "restoreRDBFile"); f != nil {
 		pool(c, f, "restoreRDBFile")
 	}
-	if f := c.Func(pkgCommon, "", "NewRDBLoader"); f != nil {
-		loader(c, f)
-	}
+	LoaderRules(c)
 	c.Expect("R1.private", 4)
 	c.Expect("R2.pair", 4)
 	c.Expect("R2.reach", 2)
@@ -1204,6 +1202,13 @@ func LastIsError(info *types.Info, call *ast.CallExpr) bool {
 
 // ---------------------------------------------------------------------------
 // R5 loader
+
+// LoaderRules checks NewRDBLoader (shared with C17.R5).
+func LoaderRules(c *core.Ctx) {
+	if f := c.Func(pkgCommon, "", "NewRDBLoader"); f != nil {
+		loader(c, f)
+	}
+}
 
 func loader(c *core.Ctx, fn *core.Fn) {
 	info := fn.Pkg.TypesInfo
